@@ -118,8 +118,11 @@ Fixpoint dfind (k : key) (d : list slot) : option slot :=
   end.
 
 (* d[k] = e for a key that is present: the position (and the stamp) is kept *)
-Definition dset_in (k : key) (e : entry) (d : list slot) : list slot :=
-  map (fun x => if Nat.eqb (sk x) k then mkslot k e (ss x) else x) d.
+Fixpoint dset_in (k : key) (e : entry) (d : list slot) : list slot :=
+  match d with
+  | [] => []
+  | x :: r => if Nat.eqb (sk x) k then mkslot k e (ss x) :: r else x :: dset_in k e r
+  end.
 
 (* d[k] = e *)
 Definition dstore (k : key) (e : entry) (stamp : nat) (d : list slot) : list slot :=
